@@ -240,6 +240,13 @@ def inline_new_helpers(units, known, renamed=()):
         return {}
     # the helpers' own bodies (and their closures, re-rooted to the first caller) no longer stand for themselves
     ids = {bodies[p]["id"]: p for p in done}
+    # the source-level (HIR) view of a spliced helper is kept: rules that read literals / expressions attribute it to
+    # the first function it was spliced into (Program.hir_items)
+    owner = lib.setdefault("inlined_hir", {})
+    for hid, hp in ids.items():
+        first = next((x for x in lib["bodies"] if strip(x["path"]) == done[hp][0] and "{closure" not in x["path"]), None)
+        if first is not None:
+            owner[hid] = first["id"]
     keep = []
     for b in lib["bodies"]:
         if b["path"] in done:
